@@ -34,6 +34,8 @@ GuardCommit(t, b) == IF b = 0 \/ b > t THEN "err" ELSE "ok"
 GuardDeg(v) == IF v \in 1..6 THEN "ok" ELSE "err"
 
 Big == {65536, 65537, 16777216}       \* plus 2^32 - 1, 2^32, 2^32 + 1 and usize::MAX, added by name (TLC integers are 32-bit)
+Wide == {255, 256, 257, 258, 262, 263, 512, 513, 65536, 65537, 65542}
+WideMix == {1, 2, 6} \cup {256, 257, 258, 262, 65537}
 Cases ==
      { [op |-> "params", n |-> n, cap |-> cap, expect |-> GuardParams(n, cap)] : n \in 0..130, cap \in 0..(IF Quick THEN 40 ELSE 130) }
   \cup { [op |-> "params", n |-> n, cap |-> cap, expect |-> GuardParams(n, cap)] : n \in {1, 8, 64, 65, 128}, cap \in {64, 128, 129} }
@@ -59,7 +61,11 @@ Cases ==
   \cup { [op |-> "deg_u8", v |-> v, expect |-> GuardDeg(v)] : v \in 0..255 }
   \cup { [op |-> "deg_usize", v |-> v, expect |-> GuardDeg(v)] : v \in (0..300) \cup Big }
   \cup { [op |-> "deg_usize_named", name |-> nm, expect |-> "err"] : nm \in {"u32max", "u32max_plus1", "u32max_plus2", "usizemax"} }
-  \cup { [op |-> "rlen", b |-> b, expect |-> IF b = 0 THEN "err" ELSE "ok"] : b \in 0..8 }
+  \cup { [op |-> "rlen", b |-> b, expect |-> IF b = 0 THEN "err" ELSE "ok"] : b \in (0..8) \cup Wide }
+  \* counts that alias a small count when narrowed to 8 or 16 bits (256 + k, 65536 + k): a length is a machine word, never a byte
+  \cup { [op |-> "wit", counts |-> cs, expect |-> GuardWit(cs)] : cs \in UNION { [1..k -> WideMix] : k \in 1..2 } }
+  \cup { [op |-> "mask", t |-> t, len |-> len, expect |-> GuardMask(t, len)] : t \in 1..6, len \in Wide }
+  \cup { [op |-> "commit", t |-> t, b |-> b, expect |-> GuardCommit(t, b)] : t \in 1..6, b \in Wide }
 
 VARIABLES c, pc
 Init == pc = "pick" /\ c = [op |-> "none"]
